@@ -38,6 +38,9 @@ def main():
     elif pid == 'C14':
         import dial
         dial.main(pid, 'quick' if tier == 'replay' else tier, rp)
+    elif pid == 'C19':
+        import race
+        race.main(pid, 'quick' if tier == 'replay' else tier, rp)
     elif pid == 'C12':
         import after
         after.main(pid, 'quick' if tier == 'replay' else tier, rp)
